@@ -1319,6 +1319,44 @@ def _guard_expr(test):
     return None
 
 
+class LexDefs:
+    """Cheap stand-in for reaching definitions in very long straight-line numeric functions: the definitions of
+    a name that matter at a statement are the last assignment before it in source order plus, when that one
+    sits in a branch the statement is not part of, the last assignment in the sibling branch."""
+
+    def __init__(self, fn):
+        self.assigns = {}
+        for st in astx.walk_stmts(fn.node.body):
+            if isinstance(st, (ast.Assign, ast.AugAssign, ast.AnnAssign)):
+                for t in astx.assigned_targets(st):
+                    if isinstance(t, ast.Name):
+                        self.assigns.setdefault(t.id, []).append(st)
+
+    @staticmethod
+    def _pos(n):
+        return (n.lineno, n.col_offset)
+
+    def defs(self, st, name):
+        prior = [a for a in self.assigns.get(name, []) if self._pos(a) < self._pos(st)]
+        if not prior:
+            return []
+        last = prior[-1]
+        out = [last]
+        anc_st = {id(a) for a in astx.ancestors(st)}
+        cur = last
+        for a in astx.ancestors(last):
+            if id(a) in anc_st:
+                break
+            if isinstance(a, ast.If):
+                other = a.orelse if cur in a.body else a.body
+                inside_ = {id(x) for o in other for x in ast.walk(o)}
+                cands = [p_ for p_ in prior if id(p_) in inside_]
+                if cands:
+                    out.append(cands[-1])
+            cur = a
+        return out
+
+
 def _denominators(ctx, e, at, mask, depth=0):
     """Canonical dumps of the denominators of the quotients that make up value e (names resolved one level)."""
     out = set()
@@ -1332,10 +1370,9 @@ def _denominators(ctx, e, at, mask, depth=0):
         if isinstance(base, ast.Subscript) and isinstance(base.slice, ast.Name) and base.slice.id == mask:
             base = base.value
         if isinstance(base, ast.Name):
-            for d in ctx.rd.defs(at, base.id):
-                if d.kind == 'stmt' and isinstance(d.ast, ast.Assign) and len(d.ast.targets) == 1 and \
-                        isinstance(d.ast.targets[0], ast.Name):
-                    out |= _denominators(ctx, d.ast.value, d, mask, depth + 1)
+            for d in ctx.defs(at, base.id):
+                if isinstance(d, ast.Assign) and len(d.targets) == 1 and isinstance(d.targets[0], ast.Name):
+                    out |= _denominators(ctx, d.value, d, mask, depth + 1)
     return out
 
 
@@ -1346,7 +1383,7 @@ def zeroguard(repo, out):
     for fn in repo.module(rel).funcs.values():
         if 'eps' not in astx.names(fn.node):
             continue
-        ctx = Ctx(fn)
+        ctx = LexDefs(fn)
         # all zero tests of this function:  E > eps  (as an `if` or inside np.where)
         guards = {}         # dump(E) -> source
         masks = {}          # id(def node) -> (mask name, E)
@@ -1369,7 +1406,7 @@ def zeroguard(repo, out):
 
         def judge(st, e, mask):
             """st installs a value under the zero test of e."""
-            at = ctx.at(st)
+            at = st
             dens = _denominators(ctx, st.value, at, mask)
             if not dens:
                 return
@@ -1400,14 +1437,14 @@ def zeroguard(repo, out):
             done = False
             for t in st.targets:
                 if isinstance(t, ast.Subscript) and isinstance(t.slice, ast.Name):
-                    ds = ctx.rd.defs(ctx.at(st), t.slice.id)
-                    ms = {masks[id(d.ast)] for d in ds if d.kind == 'stmt' and id(d.ast) in masks} if ds else set()
+                    ds = ctx.defs(st, t.slice.id)
+                    ms = {masks[id(d)] for d in ds if id(d) in masks} if ds else set()
                     if len(ms) == 1 and len(ds) == 1:
                         mname, e = next(iter(ms))
                         # a value selected with a different mask is a mismatch of its own
                         sel = [n for n in astx.walk(st.value) if isinstance(n, ast.Subscript) and
                                isinstance(n.slice, ast.Name) and n.slice.id != mname and
-                               any(d.kind == 'stmt' and id(d.ast) in masks for d in ctx.rd.defs(ctx.at(st), n.slice.id))]
+                               any(id(d) in masks for d in ctx.defs(st, n.slice.id))]
                         if sel:
                             out.bad(fn, st, f'stores under mask `{mname}` values selected with mask `{sel[0].slice.id}`',
                                     key='zero-guard-mismatch')
